@@ -89,6 +89,73 @@ def check_prefixes(rep, drv, case, mode, data, with_schema, cuts):
                          dict(base, seekable=seekable))
 
 
+def check_megabyte_elements(rep):
+    """elements whose contents exceed the decoder's per-read cap (streaming.MAX_READ_SIZE, 1 MiB): the complete encoding
+    decodes, and every proper prefix - in particular cuts beyond header + cap, where the first capped read is full - is an
+    underrun / end of stream, never a value and never another error"""
+    from pyasn1.codec import streaming
+    from pyasn1.type import univ, namedtype
+    from pyasn1.codec.der import decoder as der_decoder
+    cap = getattr(streaming, 'MAX_READ_SIZE', 1 << 20)
+    n = cap + 70001
+
+    def ln(k):
+        b = k.to_bytes((k.bit_length() + 7) // 8, 'big')
+        return bytes([0x80 | len(b)]) + b
+    payload = bytes((i * 7 + 3) & 0xff for i in range(251)) * (n // 251 + 1)
+    payload = payload[:n]
+    prim = b'\x04' + ln(n) + payload
+    rec_t = univ.Sequence(componentType=namedtype.NamedTypes(namedtype.NamedType('n', univ.Integer()),
+                                                            namedtype.NamedType('blob', univ.OctetString())))
+    rec = b'\x30' + ln(3 + len(prim)) + b'\x02\x01\x05' + prim
+    half = n // 2 + cap // 2
+    seg = b'\x24\x80' + b'\x04' + ln(half) + payload[:half] + b'\x04' + ln(n - half) + payload[half:] + b'\x00\x00'
+    for name, data, schema, dec, hdr in (('der-octets', prim, univ.OctetString(), der_decoder, len(prim) - n),
+                                         ('der-record', rec, rec_t, der_decoder, len(rec) - n),
+                                         ('ber-indef-two-fragments', seg, univ.OctetString(), ber_decoder, 2 + len(ln(half)) + 1)):
+        base = {'kind': 'megabyte', 'case': name, 'length': len(data), 'cap': cap}
+        rep.case('megabyte ' + name, nontrivial=True)
+        try:
+            obj, rest = dec.decode(data, asn1Spec=schema)
+            whole = bytes(obj['blob'] if name == 'der-record' else obj) == payload and rest == b''
+        except Exception as e:  # noqa
+            whole = False
+            rep.fail('megabyte-whole-' + codec.classify(e), 'the complete %d-octet encoding does not decode: %s' % (len(data), e), base)
+        else:
+            if not whole:
+                rep.fail('megabyte-whole-wrong', 'the complete %d-octet encoding decodes to other contents' % len(data), base)
+        for k in sorted({1, hdr, hdr + 5, hdr + cap - 1, hdr + cap, hdr + cap + 1, hdr + cap + 4096, len(data) - 70000, len(data) - 1}):
+            if not 0 < k < len(data):
+                continue
+            pre = data[:k]
+            rep.count('megabyte-cuts')
+            rep.evaluations += 1
+            for how, arg in (('bytes', pre), ('bytesio', io.BytesIO(pre))):
+                try:
+                    dec.decode(arg, asn1Spec=schema)
+                    r = 'value'
+                except Exception as e:  # noqa
+                    r = codec.classify(e)
+                if r != 'underrun':
+                    rep.fail('prefix-oneshot-' + r, 'one-shot decode (%s) of a proper prefix (cut %d of %d, element beyond the read cap) -> %s' % (
+                        how, k, len(data), r), dict(base, cut=k, presentation=how))
+            for closed in (False, True):
+                for mk in ('nonblocking-bytesio', 'seekable', 'non-seekable'):
+                    if mk == 'nonblocking-bytesio':
+                        s = streams.NonBlockingBytesIO(pre)
+                    else:
+                        s = streams.GrowingStream(seekable=(mk == 'seekable'))
+                        s.feed(pre)
+                    if closed:
+                        s.close_input()
+                    o = stream_outcome(dec, s, schema, max_steps=4)
+                    bad = (o != ['EOS']) if closed else any(x != 'U' for x in o)
+                    if bad:
+                        rep.fail('prefix-%s-stream-%s' % ('closed' if closed else 'open', '-'.join(o[-2:])),
+                                 '%s %s stream holding a proper prefix (cut %d of %d, element beyond the read cap) -> %s' % (
+                                     'closed' if closed else 'open', mk, k, len(data), o), dict(base, cut=k, stream=mk, closed=closed))
+
+
 def check_case(rep, drv, case, modes, rng, all_cuts=True):
     for mode in modes:
         cdc, dm, ch = mode
@@ -140,6 +207,7 @@ def run(rep, tier, seed):
         case = engine.Case(t, v)
         rep.case('corpus ' + case.canon)
         check_case(rep, drv, case, [mode], rng)
+    check_megabyte_elements(rep)
     for case in engine.gen_cases(rng, n, max_depth=2, allow_any=True):
         if not engine.representable(case):
             continue
